@@ -86,8 +86,24 @@ def fixed_program(sg, reps):
         d = {id(z): 1, id(h): 2}                      # dict / set use inside the program must not matter
         loss = (z * z).sum() + sum(t.sum() for t in {x, w}) * 0.0
         loss.backward()
-        digs.append(_dig([z.data, np.asarray(loss.data), x.grad.data, w.grad.data]))
+        digs.append(_dig([z.data, np.asarray(loss.data), x.grad.data, w.grad.data]) + fanout_program(sg))
+        junk = [bytearray(61 * (k % 7 + 1)) for k in range(2000 * (_ + 1))]     # perturb the heap between repetitions
     return digs
+
+def fanout_program(sg):
+    """one float32 tensor feeding seven branches whose gradient contributions differ by many orders of magnitude: the bits of
+    x.grad depend on the ORDER in which the contributions are accumulated, which must not depend on object addresses"""
+    x = sg.Tensor(np.array([1.0, 3.0, -7.0], dtype=np.float32), requires_grad=True)
+    ws = [1e8, 1.0, -1e8, 3.14159, 1e-3, 2.5e7, -2.5e7]
+    keep = []
+    acc = None
+    for k, w in enumerate(ws):
+        keep.append([bytearray(33 * (k + 1)) for _ in range(50)])
+        b = x * sg.Tensor(np.array([w, w * 0.37, w * 1.91], dtype=np.float32))
+        acc = b if acc is None else acc + b
+    y = sg.stack([acc, x * x, acc * x], 0)
+    y.sum().backward()
+    return _dig([x.grad.data, np.asarray(y.data)])
 
 def table(L):
     sg = harness.load()
